@@ -110,6 +110,8 @@ pub enum SinkAct {
 
 /// Write whose calls follow a schedule; records every delivered byte.
 pub struct ScheduledSink {
+	/// kind of the error a `HardError` step reports (anything but `Interrupted` is final for a writer)
+	pub hard_error_kind: io::ErrorKind,
 	pub delivered: Vec<u8>,
 	pub schedule: Vec<SinkAct>,
 	pub default_k: usize,
@@ -128,7 +130,7 @@ pub struct ScheduledSink {
 
 impl ScheduledSink {
 	pub fn new(schedule: Vec<SinkAct>, default_k: usize, supports_vectored: bool) -> Self {
-		ScheduledSink { delivered: Vec::new(), schedule, default_k: default_k.max(1), calls: 0, vectored_calls: 0, plain_calls: 0, partial_inside: [0; 8], interrupted_on_vectored: 0, supports_vectored, faulted: false, blackhole_after_fault: true }
+		ScheduledSink { hard_error_kind: io::ErrorKind::Other, delivered: Vec::new(), schedule, default_k: default_k.max(1), calls: 0, vectored_calls: 0, plain_calls: 0, partial_inside: [0; 8], interrupted_on_vectored: 0, supports_vectored, faulted: false, blackhole_after_fault: true }
 	}
 	fn next_act(&mut self) -> SinkAct {
 		let i = self.calls as usize;
@@ -156,7 +158,7 @@ impl Write for ScheduledSink {
 			SinkAct::Interrupted => Err(io::Error::new(io::ErrorKind::Interrupted, "injected interrupt")),
 			SinkAct::HardError => {
 				self.faulted = true;
-				Err(io::Error::new(io::ErrorKind::Other, "injected hard error"))
+				Err(io::Error::new(self.hard_error_kind, "injected hard error"))
 			}
 			SinkAct::Zero => {
 				self.faulted = true;
@@ -202,7 +204,7 @@ impl Write for ScheduledSink {
 			}
 			SinkAct::HardError => {
 				self.faulted = true;
-				Err(io::Error::new(io::ErrorKind::Other, "injected hard error"))
+				Err(io::Error::new(self.hard_error_kind, "injected hard error"))
 			}
 			SinkAct::Zero => {
 				self.faulted = true;
